@@ -125,7 +125,6 @@ type model struct {
 	rwW    [2]bool
 	rwR    [2]int
 	wg     [2]int
-	wgBad  [2]bool
 	onceDo [2]bool
 	onceDn [2]bool
 	maps   [2]map[int]int
@@ -558,27 +557,23 @@ func (m *model) finish(g int, fr *frame, r *rawRes, raw json.RawMessage) *Verdic
 		return noPanic()
 	// ---- nosync.WaitGroup
 	case "wg.add", "wg.done":
-		if m.wgBad[o] {
-			return nil // after a negative counter the WaitGroup is misused; nothing is specified any more
-		}
+		// sync.WaitGroup.Add adds first and panics afterwards: a counter driven below zero stays there after the
+		// (recovered) panic, and later operations of the same WaitGroup see it.
 		d := -1
 		if op.K == "wg.add" {
 			d = int(argInt(op, 0))
 		}
 		m.wg[o] += d
 		if m.wg[o] < 0 {
-			m.wgBad[o] = true
-			if r.Panic == nil {
-				return bad("contention", "negative WaitGroup counter must panic")
-			}
-			return nil
+			m.Probes["wg_negative_counter"]++
+			return wantPanic("negative WaitGroup counter")
 		}
 		return noPanic()
 	case "wg.wait":
-		if m.wgBad[o] {
-			return nil
-		}
 		if m.wg[o] != 0 {
+			if m.wg[o] < 0 {
+				m.Probes["wg_wait_after_negative"]++
+			}
 			return wantPanic("Wait with a non-zero counter")
 		}
 		return noPanic()
